@@ -240,7 +240,10 @@ class Module:
         self.chunks.append(Chunk(head + '\n', None, 'text'))
         tyname = _impl_type_name(it.header)
         for m in members:
-            if isinstance(m, tuple) and m[0] == 'const_ensures':
+            if isinstance(m, tuple) and m[0] == 'spec':
+                # spec-only member text (e.g. the definition of a spec fn the woven trait declares)
+                self.chunks.append(Chunk(m[1] + '\n', None, 'text'))
+            elif isinstance(m, tuple) and m[0] == 'const_ensures':
                 # R11: `pub const NAME: T = EXPR;` -> `pub exec const NAME: T ensures <clause> { EXPR }` (Verus syntax for a const with a contract)
                 _, name, clause, props = m[:4]
                 hint = m[4] if len(m) > 4 else ''
